@@ -514,6 +514,16 @@ int MxEndpoint::app_close() {
     return rc;
 }
 
+int MxEndpoint::hello_request() {
+    if (!ssl || !cfg.server) { return PS_FAILURE; }
+    vsim_set_node(node);
+    int rc = vsim_encode_hello_request(ssl);
+    log("EncodeHelloRequest", rc);
+    if (rc >= 0) { wants_send = true; }
+    if (on_api) { on_api(*this, "hello_request"); }
+    return rc;
+}
+
 // The harness's own lazily initialised statics, touched once on the controller thread before simulated threads start (C20)
 void harness_prewarm() {
     (void) all_tls12_suites(); (void) all_tls13_suites();
